@@ -1,6 +1,6 @@
 """C01: all members that process the same commits reach the same epoch state."""
 from corecheck import run_core
 def run(ctx):
-    return run_core(ctx, "C01", driver={}, sim_cfgs=["SIM_core", "SIM_tree", "SIM_kem", "SIM_ext"], need_stats=("agreement_pairs", "DeliverCommit:ok", "JoinWelcome:ok", "ApplyPending:ok"),
+    return run_core(ctx, "C01", mc_thorough=["MC_core_mid", "MC_ext"], driver={}, sim_cfgs=["SIM_core", "SIM_tree", "SIM_kem", "SIM_ext"], need_stats=("agreement_pairs", "DeliverCommit:ok", "JoinWelcome:ok", "ApplyPending:ok"),
                     need_shapes=("interior_blank", "unmerged", "no_path_commits", "path_commits"),
                     invariants_note="Agreement, EpochIsChainLength, NoDecapFailure (MlsGroup.tla); concrete: context/tree/authenticator/exporter equality and cross-decryption among all members the model places in one epoch")
